@@ -165,57 +165,66 @@ func runC14(c *Ctx) {
 			c.Require("C14.R7 index-co-update", FuncKey(fn)+": "+rule, p.InstrPos(a), "every path from the ID-index write to a return performs "+what, path == nil, pathStr(path))
 		}
 	}
-	isCall := func(name string) func(ssa.Instruction) bool {
-		return func(in ssa.Instruction) bool {
-			cl, ok := in.(*ssa.Call)
-			return ok && calleeMatches(CalleeName(cl.Common()), name)
+	// a queue update is a direct write of feePriorityQueue or a call of a pool method that writes it
+	writesQueue := func(in ssa.Instruction) bool {
+		cl, ok := in.(*ssa.Call)
+		if !ok {
+			return false
 		}
+		if g := cl.Common().StaticCallee(); g != nil && strings.HasPrefix(FuncKey(g), "pkg/txpool.(*TransactionPool).") {
+			return len(fieldWrites(g, pool, "feePriorityQueue")) > 0
+		}
+		return false
 	}
-	inSet := func(set []ssa.Instruction) func(ssa.Instruction) bool {
-		return func(in ssa.Instruction) bool {
-			for _, s := range set {
-				if s == in {
+	nIdx := 0
+	for _, fn := range p.OwnFuncs {
+		if !inScope(fn, []string{"pkg/txpool"}) || strings.Contains(FuncKey(fn), "NewTransactionPool") || len(fn.Blocks) == 0 {
+			continue
+		}
+		allW := fieldWrites(fn, pool, "allTransactions")
+		if len(allW) == 0 {
+			continue
+		}
+		qW := fieldWrites(fn, pool, "feePriorityQueue")
+		isQ := func(in ssa.Instruction) bool {
+			for _, q := range qW {
+				if q == in {
 					return true
 				}
 			}
-			return false
+			return writesQueue(in)
 		}
-	}
-	{
-		allW := fieldWrites(add, pool, "allTransactions")
-		qW := fieldWrites(add, pool, "feePriorityQueue")
-		c.MinInstances("C14.R7 Add writes the ID index", len(allW), 1)
-		mustReach(add, allW, inSet(qW), "a fee-queue push", "ID-index insert ⇒ fee-queue push")
-		ff := factsOf(add)
-		for _, a := range allW {
-			ok, f := ff.BoolHoldsAt(a.Block(), IsResult("(*txpool.addressTransactions).Add", 0), true)
-			c.Require("C14.R7 index-co-update", FuncKey(add)+": ID-index insert only after per-sender Add succeeded", p.InstrPos(a), "insert dominated by the fact <per-sender Add>#0 is true", ok, f)
-		}
-	}
-	{
-		allW := fieldWrites(remove, pool, "allTransactions")
-		qW := fieldWrites(remove, pool, "feePriorityQueue")
-		c.MinInstances("C14.R7 remove writes the ID index", len(allW), 1)
-		mustReach(remove, allW, inSet(qW), "a fee-queue rebuild", "ID-index delete ⇒ fee-queue rebuild")
-		mustReach(remove, allW, isCall("(*txpool.addressTransactions).Remove"), "the per-sender removal", "ID-index delete ⇒ per-sender Remove")
-	}
-	// no other pool function writes one index alone
-	for _, fn := range p.OwnFuncs {
-		if !inScope(fn, []string{"pkg/txpool"}) || fn == add || fn == remove {
-			continue
-		}
-		if k := FuncKey(fn); strings.Contains(k, "NewTransactionPool") {
-			continue
-		}
-		for _, f := range []string{"allTransactions", "feePriorityQueue", "perAccount"} {
-			for _, w := range fieldWrites(fn, pool, f) {
-				if f == "feePriorityQueue" {
-					continue // local heaps in evict* are not the pool's field; fieldWrites is field-exact
-				}
-				c.Require("C14.R7 index-writers", FuncKey(fn)+" writes "+pool+"."+f, p.InstrPos(w), "only Add and remove mutate the pool's indexes", false, "")
+		var inserts, deletes []ssa.Instruction
+		for _, w := range allW {
+			if _, isMU := w.(*ssa.MapUpdate); isMU {
+				inserts = append(inserts, w)
+			} else {
+				deletes = append(deletes, w)
 			}
 		}
+		nIdx += len(allW)
+		mustReach(fn, inserts, isQ, "a fee-queue push", "ID-index insert ⇒ fee-queue update")
+		mustReach(fn, deletes, isQ, "a fee-queue rebuild", "ID-index delete ⇒ fee-queue update")
+		ff := factsOf(fn)
+		for _, a := range inserts {
+			ok, f := ff.BoolHoldsAt(a.Block(), IsResult("(*txpool.addressTransactions).Add", 0), true)
+			c.Require("C14.R7 index-co-update", FuncKey(fn)+": ID-index insert only after per-sender Add succeeded", p.InstrPos(a), "insert dominated by the fact <per-sender Add>#0 is true", ok, f)
+		}
+		for _, a := range deletes {
+			// a delete either removes the transaction from its sender list here, or the sender list already dropped it (its ID came back from the per-sender Add)
+			keyT := ff.Term(a.(*ssa.Call).Common().Args[1]).String()
+			fromList := strings.Contains(keyT, "addressTransactions).Add(")
+			if fromList {
+				continue
+			}
+			path := reachesReturnAvoiding(a, func(in ssa.Instruction) bool {
+				cl, ok := in.(*ssa.Call)
+				return ok && calleeMatches(CalleeName(cl.Common()), "(*txpool.addressTransactions).Remove")
+			}, nil)
+			c.Require("C14.R7 index-co-update", FuncKey(fn)+": ID-index delete ⇒ per-sender Remove", p.InstrPos(a), "every path from the ID-index delete to a return removes the transaction from its sender list", path == nil, pathStr(path))
+		}
 	}
+	c.MinInstances("C14.R7 ID-index writes", nIdx, 2)
 
 	// ---- R8 must-consume replaced ID
 	{
